@@ -11,6 +11,8 @@
 #include <stdexcept>
 #include <stdio.h>
 #include <stdlib.h>
+#include <string.h>
+#include <new>
 #include <cppcms/defs.h>
 #include <booster/noncopyable.h>
 #include <booster/hold_ptr.h>
@@ -72,6 +74,112 @@ public:
 	}
 };
 
+// ---- sequences of operations on ONE form object (three text widgets: "a", "b", and one without an explicit name, which
+// the form auto-names "_3" on the first load) across several requests ----
+//   seq <locale hex> <op> <op> ...        answer: seq <observation> ...
+//   L<f0>,<f1>,<f2>   load from a new request; f = "-" (field absent) or "=<hex>" (field present with this value)
+//   C                 form.clear()            c<i>  widget i .clear()
+//   S<i>=<hex>        widget i .value(v)      M<i>=<low>:<high>  limits     H<i>=<0|1>  validate_charset
+//   V                 each widget's validate(), in order -> V<b0><b1><b2>       F  form.validate() -> F<b>
+//   G                 each widget's value() -> G<hex or ! when it throws>,...
+//   N<fill hex>:<low>:<high>   a fresh widget constructed over memory filled with <fill>, limits set, validate() -> N<b>
+struct sform : public cppcms::form {
+	cppcms::widgets::text w[3];
+	sform() { w[0].name("a"); w[1].name("b"); add(w[0]); add(w[1]); add(w[2]); }
+};
+
+static std::string pct(std::string const &value)
+{
+	static const char *d="0123456789ABCDEF";
+	std::string q;
+	for(size_t i=0;i<value.size();i++) { unsigned char c=value[i]; q+='%'; q+=d[c>>4]; q+=d[c&15]; }
+	return q;
+}
+
+class seqapp : public cppcms::application {
+public:
+	seqapp(cppcms::service &s) : cppcms::application(s) {}
+	std::string out_;
+	void do_load(sform &f,std::string const &loc,std::vector<std::string> const &fields)
+	{
+		static const char *names[3]={"a","b","_3"};
+		std::string q;
+		for(size_t i=0;i<fields.size() && i<3;i++) {
+			if(fields[i].empty() || fields[i][0]!='=') continue;
+			if(!q.empty()) q+='&';
+			q+=names[i]; q+='='; q+=pct(unhex(fields[i].substr(1)));
+		}
+		std::map<std::string,std::string> env;
+		env["HTTP_HOST"]="h"; env["SCRIPT_NAME"]="/s"; env["PATH_INFO"]="/p"; env["REQUEST_METHOD"]="GET";
+		env["QUERY_STRING"]=q;
+		booster::shared_ptr<dummy_api> api(new dummy_api(service(),env,out_));
+		booster::shared_ptr<cppcms::http::context> cnt(new cppcms::http::context(api));
+		assign_context(cnt);
+		try {
+			request().prepare();
+			context().locale(loc);
+			f.load(context());
+		}
+		catch(...) { release_context(); throw; }
+		release_context();
+	}
+	std::string run(std::vector<std::string> const &v)
+	{
+		std::string r="seq";
+		try {
+			std::string loc=unhex(v[1]);
+			sform f;
+			for(size_t k=2;k<v.size();k++) {
+				std::string const &op=v[k];
+				char c=op[0];
+				if(c=='L') {
+					std::vector<std::string> fields;
+					std::string cur;
+					for(size_t i=1;i<=op.size();i++) {
+						if(i==op.size() || op[i]==',') { fields.push_back(cur); cur.clear(); }
+						else cur+=op[i];
+					}
+					do_load(f,loc,fields);
+				}
+				else if(c=='C') f.clear();
+				else if(c=='c') f.w[op[1]-'0'].clear();
+				else if(c=='S') f.w[op[1]-'0'].value(unhex(op.substr(3)));
+				else if(c=='M') {
+					size_t colon=op.find(':');
+					f.w[op[1]-'0'].limits(atoi(op.substr(3,colon-3).c_str()),atoi(op.substr(colon+1).c_str()));
+				}
+				else if(c=='H') f.w[op[1]-'0'].validate_charset(op[3]=='1');
+				else if(c=='V') {
+					r+=" V";
+					for(int i=0;i<3;i++) r+= f.w[i].validate() ? '1' : '0';
+				}
+				else if(c=='F') { r+= f.validate() ? " F1" : " F0"; }
+				else if(c=='G') {
+					r+=" G";
+					for(int i=0;i<3;i++) {
+						if(i) r+=',';
+						try { r+=hex(f.w[i].value()); } catch(cppcms::cppcms_error const &) { r+='!'; }
+					}
+				}
+				else if(c=='N') {
+					size_t c1=op.find(':'),c2=op.find(':',c1+1);
+					int fill=strtol(op.substr(1,c1-1).c_str(),0,16);
+					static union { long long align; char b[4096]; } mem;
+					if(sizeof(cppcms::widgets::text)>sizeof(mem.b)) { r+=" N?"; continue; }
+					memset(mem.b,fill,sizeof(mem.b));
+					cppcms::widgets::text *t=new (mem.b) cppcms::widgets::text();
+					t->limits(atoi(op.substr(c1+1,c2-c1-1).c_str()),atoi(op.substr(c2+1).c_str()));
+					r+= t->validate() ? " N1" : " N0";
+					t->~text();
+				}
+				else return "seq BAD-OP "+op;
+			}
+		}
+		catch(std::exception const &e) { r+=std::string(" EXC ")+e.what(); }
+		return r;
+	}
+};
+
 int main()
 {
 	cppcms::json::value cfg;
@@ -79,12 +187,15 @@ int main()
 	cfg["localization"]["backend"]="std";
 	cppcms::service srv(cfg);
 	app a(srv);
+	seqapp sa(srv);
 	std::string line;
 	while(std::getline(std::cin,line)) {
 		std::vector<std::string> v=split(line);
 		std::string out;
 		if(v.size()==6 && v[0]=="frm")
 			out=a.run(unhex(v[1]),atoi(v[2].c_str()),atoi(v[3].c_str()),v[4]=="1",unhex(v[5]));
+		else if(v.size()>=2 && v[0]=="seq")
+			out=sa.run(v);
 		else out="BAD-CASE";
 		fputs(out.c_str(),stdout); fputc('\n',stdout);
 	}
